@@ -1214,6 +1214,8 @@ async fn e_ctx(r: RequestContext<()>, p: Path<VarPath>, q: Query<EQuery>) -> Res
     Ok(HttpResponseOk(json!({
         "method": r.request.method().as_str(), "uri": r.request.uri().to_string(),
         "probe": r.request.headers().get("x-probe").map(|v| v.to_str().unwrap_or("?").to_string()),
+        "tags": r.request.headers().get_all("x-tag").iter().map(|v| v.to_str().unwrap_or("?").to_string()).collect::<Vec<_>>(),
+        "header_lines": r.request.headers().len(),
         "peer_is_loopback": r.request.remote_addr().ip().is_loopback(), "peer_port": r.request.remote_addr().port(),
         "request_id": r.request_id, "path_id": p.into_inner().x, "query_s": q.into_inner().s,
     })))
